@@ -607,6 +607,7 @@ func endToEnd(c *lib.Ctx) {
 		wg.Wait()
 		lib.StopWait(inst)
 	}
+	blackholeScenarios(c, healthy)
 	c.Count("e2e_fault_backend_connections", atomic.LoadInt64(&faultHits[bClosed])+atomic.LoadInt64(&faultHits[bReset])+atomic.LoadInt64(&faultHits[bHalf]))
 	var hh int64
 	for _, h := range healthy {
